@@ -35,7 +35,7 @@ REQUIRED = [
     "concurrent_adds_keep_dag_valid", "reachable_root",
     # round 3: the repair's own write transaction fails (Props/C08RepairFault.lean)
     "fact_repair_fault", "failed_repair_keeps_disk_same_memory", "repair_restores_memory_even_if_commits_fail",
-    "failed_repair_idle_on_healthy_state", "failed_repair_is_not_durable_witness",
+    "failed_repair_idle_on_healthy_state", "failed_repair_is_not_durable_witness", "add_after_failed_repair_heals_store_witness",
 ]
 
 STATELESS = ("tcx", "tci", "tcm", "tca", "tnb", "ckey", "kclk", "phl", "mget")  # replayed alone
